@@ -44,6 +44,7 @@ type Frame struct {
 	fn    *ssa.Function
 	env   map[ssa.Value]Val
 	loopHeads map[int]map[string]T // heap snapshot at the head of each loop in its current iteration (for at(L, e))
+	loopHeadNames map[int]map[string]Val // the local variables as they were there
 	names map[string]Val // source-level names bound by DebugRef (values) — latest
 	addrs map[string]Val // source-level names whose DebugRef is an address
 	lets  map[string]Val // ghost lets
@@ -63,6 +64,12 @@ func (f *Frame) clone() *Frame {
 	g.env = make(map[ssa.Value]Val, len(f.env))
 	for k, v := range f.env {
 		g.env[k] = v
+	}
+	if f.loopHeadNames != nil {
+		g.loopHeadNames = make(map[int]map[string]Val, len(f.loopHeadNames))
+		for k, v := range f.loopHeadNames {
+			g.loopHeadNames[k] = v // immutable once taken
+		}
 	}
 	if f.loopHeads != nil {
 		g.loopHeads = make(map[int]map[string]T, len(f.loopHeads))
